@@ -467,4 +467,450 @@ theorem isoywd_form (y : Int) (w : Nat) (wd : Weekday) :
         | some ny => exact key ny _
 
 
+/-! ### the combinations -/
+
+/-- what the ISO-week constructor has to guarantee for the ISO combination (C01's ISO-week
+constructor/accessor round trip) -/
+def IsoCtorSpec : Prop :=
+  ∀ (y : Int) (w : Nat) (wd : Weekday) (d : Date), Date.from_isoywd_opt y w wd = .ok (some d) →
+    ∃ iw, d.iso_week = .ok iw ∧ IsoWeek.year iw = y ∧ IsoWeek.week iw = (w : Int) ∧ d.weekday = wd
+
+/-- the conjunction of the three verifier closures, in specification terms -/
+def AllOk (p : Parsed) (Y : Int) (o : Nat) : Prop :=
+  (optIs p.year Y ∧ centIs p.year_div_100 p.year_mod_100 Y ∧
+    optIs p.month (monthOfYo Y o) ∧ optIs p.day (dayOfYo Y o)) ∧
+  (IsoIs p (dateOfYo Y o) ∧ (∀ w, p.weekday = some w → (w.toNat : Int) = weekdayOf (dayNumYo Y o))) ∧
+  (optIs p.ordinal o ∧ optIs p.week_from_sun (weekNo Y o 6) ∧ optIs p.week_from_mon (weekNo Y o 0))
+
+theorem andR_ok (a b : Bool) : Parsed.andR (.ok a) (.ok b) = .ok (a && b) := by cases a <;> rfl
+
+/-- the case analysis `dateArm` performs -/
+theorem dateArm_cases (p : Parsed) (gy gi : Option Int) :
+    (∃ y m d, gy = some y ∧ p.month = some m ∧ p.day = some d ∧ Parsed.dateArm p gy gi = .ymd y m d) ∨
+    (∃ y o, gy = some y ∧ p.ordinal = some o ∧ Parsed.dateArm p gy gi = .yo y o) ∨
+    (∃ y w wd, gy = some y ∧ p.week_from_sun = some w ∧ p.weekday = some wd ∧
+      Parsed.dateArm p gy gi = .ywSun y w wd) ∨
+    (∃ y w wd, gy = some y ∧ p.week_from_mon = some w ∧ p.weekday = some wd ∧
+      Parsed.dateArm p gy gi = .ywMon y w wd) ∨
+    (∃ y w wd, gi = some y ∧ p.isoweek = some w ∧ p.weekday = some wd ∧
+      Parsed.dateArm p gy gi = .iso y w wd) ∨
+    (Parsed.dateArm p gy gi = .none ∧
+      ¬ ((gy ≠ none ∧ ((p.month ≠ none ∧ p.day ≠ none) ∨ p.ordinal ≠ none ∨
+            (p.week_from_sun ≠ none ∧ p.weekday ≠ none) ∨ (p.week_from_mon ≠ none ∧ p.weekday ≠ none))) ∨
+         (gi ≠ none ∧ p.isoweek ≠ none ∧ p.weekday ≠ none))) := by
+  unfold Parsed.dateArm
+  cases gy <;> cases gi <;> cases p.month <;> cases p.day <;> cases p.ordinal <;>
+    cases p.week_from_sun <;> cases p.week_from_mon <;> cases p.isoweek <;> cases p.weekday <;> simp
+
+theorem toNat_of_u32 (o : Option Int) (v : Int) (ho : optIn o 0 4294967295) (h : o = some v) :
+    ((v.toNat : Nat) : Int) = v := by
+  have := ho v h; omega
+
+/-- the result of running all applicable checks on an existing day -/
+theorem checks_ok (p : Parsed) (Y : Int) (o : Nat) (hp : InType p) (h : VD Y o) :
+    ∃ b1 b2, Parsed.verify_ymd p (dateOfYo Y o) = .ok b1 ∧
+      Parsed.verify_isoweekdate p (dateOfYo Y o) = .ok b2 ∧
+      ((b1 && b2 && Parsed.verify_ordinal p (dateOfYo Y o)) = true ↔ AllOk p Y o) ∧
+      (b1 = true ↔ optIs p.year Y ∧ centIs p.year_div_100 p.year_mod_100 Y ∧
+        optIs p.month (monthOfYo Y o) ∧ optIs p.day (dayOfYo Y o)) ∧
+      (b2 = true ↔ IsoIs p (dateOfYo Y o) ∧
+        (∀ w, p.weekday = some w → (w.toNat : Int) = weekdayOf (dayNumYo Y o))) := by
+  obtain ⟨b1, h1, i1⟩ := verify_ymd_iff p Y o h
+  obtain ⟨b2, h2, i2⟩ := verify_iso_iff p Y o h
+  have i3 := verify_ordinal_iff p Y o hp h
+  refine ⟨b1, b2, h1, h2, ?_, i1, i2⟩
+  unfold AllOk
+  rw [Bool.and_eq_true, Bool.and_eq_true, i1, i2, i3, and_assoc]
+
+
+/-- a calendar (non-ISO) combination is present: year group with a year, plus month and day, or
+ordinal, or a Sunday- or Monday-based week number with a weekday -/
+def UsesCalendar (p : Parsed) : Prop :=
+  GroupHasYear p.year p.year_mod_100 ∧
+    ((p.month ≠ none ∧ p.day ≠ none) ∨ p.ordinal ≠ none ∨
+     (p.week_from_sun ≠ none ∧ p.weekday ≠ none) ∨ (p.week_from_mon ≠ none ∧ p.weekday ≠ none))
+
+theorem dateArm_not_iso (p : Parsed) (gy gi : Option Int)
+    (h : gy ≠ none ∧ ((p.month ≠ none ∧ p.day ≠ none) ∨ p.ordinal ≠ none ∨
+      (p.week_from_sun ≠ none ∧ p.weekday ≠ none) ∨ (p.week_from_mon ≠ none ∧ p.weekday ≠ none))) :
+    ∀ y w wd, Parsed.dateArm p gy gi ≠ .iso y w wd := by
+  revert h
+  unfold Parsed.dateArm
+  cases gy <;> cases gi <;> cases p.month <;> cases p.day <;> cases p.ordinal <;>
+    cases p.week_from_sun <;> cases p.week_from_mon <;> cases p.isoweek <;> cases p.weekday <;> simp
+
+theorem armDate_spec (p : Parsed) (hp : InType p) (gy gi : Option Int)
+    (hgy : Parsed.resolve_year p.year p.year_div_100 p.year_mod_100 = .ok gy)
+    (hgi : Parsed.resolve_year p.isoyear p.isoyear_div_100 p.isoyear_mod_100 = .ok gi) :
+    ∃ r, Parsed.armDate p (Parsed.dateArm p gy gi) = .ok r ∧
+      (∀ b d, r = .ok (b, d) → ∃ Y o, VD Y o ∧ d = dateOfYo Y o ∧ (b = true → (IsoCtorSpec ∨ ∀ y w wd, Parsed.dateArm p gy gi ≠ .iso y w wd) → AllOk p Y o)) ∧
+      (∀ e, r = .error e → (e = .notEnough ∧ Parsed.dateArm p gy gi = .none) ∨
+        ((e = .outOfRange ∨ e = .impossible) ∧ Parsed.dateArm p gy gi ≠ .none)) := by
+  have hY := resolve_year_ok _ _ _ _ hgy
+  have hI := resolve_year_ok _ _ _ _ hgi
+  rcases dateArm_cases p gy gi with ⟨y, m, d, e1, e2, e3, ha⟩ | ⟨y, o, e1, e2, ha⟩ |
+      ⟨y, w, wd, e1, e2, e3, ha⟩ | ⟨y, w, wd, e1, e2, e3, ha⟩ | ⟨y, w, wd, e1, e2, e3, ha⟩ | ⟨ha, _⟩
+  · -- year, month, day
+    rw [ha]
+    unfold Parsed.armDate
+    simp only []
+    rw [ctor_ymd']
+    split
+    · rename_i hc
+      obtain ⟨hc1, hc2, hv⟩ := hc
+      obtain ⟨ob1, ob2⟩ := ordinal_bounds y _ _ hv
+      have hvd : VD y (ordinalOf y m.toNat d.toNat) := ⟨hc1, hc2, ob1, ob2⟩
+      obtain ⟨b1, b2, h1, h2, iall, i1, i2⟩ := checks_ok p y _ hp hvd
+      simp only [Parsed.okOr, Parsed.RP.bind]
+      rw [h2, andR_ok]
+      refine ⟨_, rfl, ?_, fun e he => by cases he⟩
+      intro b dd hbd
+      cases hbd
+      refine ⟨y, _, hvd, rfl, fun hb _ => ?_⟩
+      apply iall.mp
+      rw [Bool.and_eq_true] at hb
+      have hb1 : b1 = true := by
+        apply i1.mpr
+        rcases hY with ⟨hn, _⟩ | ⟨Y, hg, hy1, hy2, _⟩
+        · rw [hn] at e1; cases e1
+        · rw [hg] at e1; cases e1
+          obtain ⟨um, ud⟩ := ymd_unique y _ _ hv
+          refine ⟨hy1, hy2, ?_, ?_⟩
+          · intro x hx; rw [e2] at hx; cases hx; rw [um]
+            exact (toNat_of_u32 _ _ hp.2.2.2.2.2.2.2.1 e2).symm
+          · intro x hx; rw [e3] at hx; cases hx; rw [ud]
+            exact (toNat_of_u32 _ _ hp.2.2.2.2.2.2.2.2.2.2.2.2.1 e3).symm
+      rw [hb1, hb.1, hb.2]; rfl
+    · simp only [Parsed.okOr, Parsed.RP.bind]
+      refine ⟨_, rfl, (fun b dd h => by cases h), fun e he => ?_⟩
+      cases he
+      right; exact ⟨Or.inl rfl, by simp⟩
+  · -- year, ordinal
+    rw [ha]
+    unfold Parsed.armDate
+    simp only []
+    rw [ctor_yo']
+    split
+    · rename_i hc
+      have hvd : VD y o.toNat := hc
+      obtain ⟨b1, b2, h1, h2, iall, _, _⟩ := checks_ok p y _ hp hvd
+      simp only [Parsed.okOr, Parsed.RP.bind]
+      rw [h1, h2, andR_ok, andR_ok]
+      refine ⟨_, rfl, ?_, fun e he => by cases he⟩
+      intro b dd hbd
+      cases hbd
+      refine ⟨y, _, hvd, rfl, fun hb _ => ?_⟩
+      apply iall.mp
+      rw [Bool.and_assoc]; exact hb
+    · simp only [Parsed.okOr, Parsed.RP.bind]
+      refine ⟨_, rfl, (fun b dd h => by cases h), fun e he => ?_⟩
+      cases he
+      right; exact ⟨Or.inl rfl, by simp⟩
+  · -- year, week from Sunday, weekday
+    rw [ha]
+    unfold Parsed.armDate
+    simp only []
+    rw [resolve_week_date_spec]
+    have hyl := yearLen_ge y
+    split
+    · refine ⟨_, rfl, (fun b dd h => by cases h), fun e he => ?_⟩
+      cases he; right; exact ⟨Or.inl rfl, by simp⟩
+    split
+    · refine ⟨_, rfl, (fun b dd h => by cases h), fun e he => ?_⟩
+      cases he; right; exact ⟨Or.inl rfl, by simp⟩
+    rename_i hyr
+    split
+    · refine ⟨_, rfl, (fun b dd h => by cases h), fun e he => ?_⟩
+      cases he; right; exact ⟨Or.inr rfl, by simp⟩
+    rename_i hpos
+    split
+    · rename_i hle
+      have hyr' : MIN_YEAR ≤ y ∧ y ≤ MAX_YEAR := Decidable.not_not.mp hyr
+      have hvd : VD y (weekOrd y w wd .sun).toNat := ⟨hyr'.1, hyr'.2, by omega, by omega⟩
+      obtain ⟨b1, b2, h1, h2, iall, _, _⟩ := checks_ok p y _ hp hvd
+      simp only [Parsed.RP.bind]
+      rw [h1, h2, andR_ok, andR_ok]
+      refine ⟨_, rfl, ?_, fun e he => by cases he⟩
+      intro b dd hbd
+      cases hbd
+      refine ⟨y, _, hvd, rfl, fun hb _ => ?_⟩
+      apply iall.mp
+      rw [Bool.and_assoc]; exact hb
+    · refine ⟨_, rfl, (fun b dd h => by cases h), fun e he => ?_⟩
+      cases he; right; exact ⟨Or.inr rfl, by simp⟩
+  · -- year, week from Monday, weekday
+    rw [ha]
+    unfold Parsed.armDate
+    simp only []
+    rw [resolve_week_date_spec]
+    have hyl := yearLen_ge y
+    split
+    · refine ⟨_, rfl, (fun b dd h => by cases h), fun e he => ?_⟩
+      cases he; right; exact ⟨Or.inl rfl, by simp⟩
+    split
+    · refine ⟨_, rfl, (fun b dd h => by cases h), fun e he => ?_⟩
+      cases he; right; exact ⟨Or.inl rfl, by simp⟩
+    rename_i hyr
+    split
+    · refine ⟨_, rfl, (fun b dd h => by cases h), fun e he => ?_⟩
+      cases he; right; exact ⟨Or.inr rfl, by simp⟩
+    rename_i hpos
+    split
+    · rename_i hle
+      have hyr' : MIN_YEAR ≤ y ∧ y ≤ MAX_YEAR := Decidable.not_not.mp hyr
+      have hvd : VD y (weekOrd y w wd .mon).toNat := ⟨hyr'.1, hyr'.2, by omega, by omega⟩
+      obtain ⟨b1, b2, h1, h2, iall, _, _⟩ := checks_ok p y _ hp hvd
+      simp only [Parsed.RP.bind]
+      rw [h1, h2, andR_ok, andR_ok]
+      refine ⟨_, rfl, ?_, fun e he => by cases he⟩
+      intro b dd hbd
+      cases hbd
+      refine ⟨y, _, hvd, rfl, fun hb _ => ?_⟩
+      apply iall.mp
+      rw [Bool.and_assoc]; exact hb
+    · refine ⟨_, rfl, (fun b dd h => by cases h), fun e he => ?_⟩
+      cases he; right; exact ⟨Or.inr rfl, by simp⟩
+  · -- ISO year, ISO week, weekday
+    rw [ha]
+    unfold Parsed.armDate
+    simp only []
+    obtain ⟨r', hr', hform⟩ := isoywd_form y w.toNat wd
+    rw [hr']
+    cases r' with
+    | none =>
+      simp only [Parsed.okOr, Parsed.RP.bind]
+      refine ⟨_, rfl, (fun b dd h => by cases h), fun e he => ?_⟩
+      cases he; right; exact ⟨Or.inl rfl, by simp⟩
+    | some D =>
+      obtain ⟨Y', o', hvd, rfl⟩ := hform D rfl
+      obtain ⟨b1, b2, h1, h2, iall, _, i2⟩ := checks_ok p Y' o' hp hvd
+      simp only [Parsed.okOr, Parsed.RP.bind]
+      rw [h1, andR_ok]
+      refine ⟨_, rfl, ?_, fun e he => by cases he⟩
+      intro b dd hbd
+      cases hbd
+      refine ⟨Y', o', hvd, rfl, fun hb hiso => ?_⟩
+      apply iall.mp
+      rw [Bool.and_eq_true] at hb
+      have hb2 : b2 = true := by
+        apply i2.mpr
+        have hiso : IsoCtorSpec := by
+          rcases hiso with h | h
+          · exact h
+          · exact absurd rfl (h y w wd)
+        obtain ⟨iw, hiw, hiy, hiwk, hwd⟩ := hiso y w.toNat wd _ hr'
+        rcases hI with ⟨hn, _⟩ | ⟨Y, hg, hy1, hy2, _⟩
+        · rw [hn] at e1; cases e1
+        · rw [hg] at e1; cases e1
+          refine ⟨⟨iw, hiw, ?_, ?_, ?_⟩, ?_⟩
+          · rw [hiy]; exact hy1
+          · rw [hiy]; exact hy2
+          · intro x hx; rw [e2] at hx; cases hx; rw [hiwk]
+            exact (toNat_of_u32 _ _ hp.2.2.2.2.2.2.2.2.2.2.1 e2).symm
+          · intro x hx; rw [e3] at hx; cases hx
+            rw [← (vd_fields Y' o' hvd).2.2.2.2.2.1, hwd]
+      rw [hb.1, hb2, hb.2]; rfl
+  · -- no combination applies
+    rw [ha]
+    refine ⟨_, rfl, (fun b dd h => by cases h), fun e he => ?_⟩
+    cases he; left; exact ⟨rfl, rfl⟩
+
+theorem quarter_eq (m : Nat) (h : 1 ≤ m) : Parsed.quarter_of m = quarterOfMonth m := by
+  unfold Parsed.quarter_of quarterOfMonth; omega
+
+/-- `to_naive_date`, all at once: no panic; a result is an existing day that agrees with every
+supplied field; the error kinds -/
+theorem date_main (p : Parsed) (hp : InType p) :
+    ∃ r, Parsed.to_naive_date p = .ok r ∧
+      (∀ d, r = .ok d → ∃ Y o, VD Y o ∧ d = dateOfYo Y o ∧ (IsoCtorSpec ∨ UsesCalendar p → DateAgrees p Y o)) ∧
+      (∀ e, r = .error e → e = .notEnough ∨ e = .impossible ∨ e = .outOfRange) ∧
+      (r = .error .notEnough → ¬ DateSufficient p) := by
+  unfold Parsed.to_naive_date
+  cases hgy : Parsed.resolve_year p.year p.year_div_100 p.year_mod_100 with
+  | error e =>
+    simp only []
+    refine ⟨_, rfl, (fun d h => by cases h), fun e' he => ?_, fun he => ?_⟩
+    · cases he
+      rcases resolve_year_err _ _ _ _ hgy with ⟨h, _⟩ | ⟨h | h, _⟩ <;> simp [h]
+    · cases he
+      rcases resolve_year_err _ _ _ _ hgy with ⟨_, h⟩ | ⟨h | h, _⟩
+      · exact fun hs => h hs.1
+      · cases h
+      · cases h
+  | ok gy =>
+    simp only []
+    cases hgi : Parsed.resolve_year p.isoyear p.isoyear_div_100 p.isoyear_mod_100 with
+    | error e =>
+      simp only []
+      refine ⟨_, rfl, (fun d h => by cases h), fun e' he => ?_, fun he => ?_⟩
+      · cases he
+        rcases resolve_year_err _ _ _ _ hgi with ⟨h, _⟩ | ⟨h | h, _⟩ <;> simp [h]
+      · cases he
+        rcases resolve_year_err _ _ _ _ hgi with ⟨_, h⟩ | ⟨h | h, _⟩
+        · exact fun hs => h hs.2.1
+        · cases h
+        · cases h
+    | ok gi =>
+      simp only []
+      obtain ⟨r, hr, hok, herr⟩ := armDate_spec p hp gy gi hgy hgi
+      rw [hr]
+      cases r with
+      | error e =>
+        simp only [Parsed.RP.bind]
+        refine ⟨_, rfl, (fun d h => by cases h), fun e' he => ?_, fun he => ?_⟩
+        · cases he
+          rcases herr e rfl with ⟨h, _⟩ | ⟨h | h, _⟩ <;> simp [h]
+        · cases he
+          rcases herr _ rfl with ⟨_, harm⟩ | ⟨h | h, _⟩
+          · rcases dateArm_cases p gy gi with ⟨_, _, _, _, _, _, ha⟩ | ⟨_, _, _, _, ha⟩ |
+              ⟨_, _, _, _, _, _, ha⟩ | ⟨_, _, _, _, _, _, ha⟩ | ⟨_, _, _, _, _, _, ha⟩ | ⟨_, hn⟩
+            · rw [ha] at harm; cases harm
+            · rw [ha] at harm; cases harm
+            · rw [ha] at harm; cases harm
+            · rw [ha] at harm; cases harm
+            · rw [ha] at harm; cases harm
+            · intro hs
+              apply hn
+              rcases hs.2.2 with ⟨hy, hc⟩ | ⟨hy, hc⟩
+              · left
+                refine ⟨?_, hc⟩
+                rcases resolve_year_ok _ _ _ _ hgy with ⟨_, h1, _, h3⟩ | ⟨Y, hg, _⟩
+                · rcases hy with hy | hy
+                  · exact absurd h1 hy
+                  · exact absurd h3 hy
+                · rw [hg]; simp
+              · right
+                refine ⟨?_, hc⟩
+                rcases resolve_year_ok _ _ _ _ hgi with ⟨_, h1, _, h3⟩ | ⟨Y, hg, _⟩
+                · rcases hy with hy | hy
+                  · exact absurd h1 hy
+                  · exact absurd h3 hy
+                · rw [hg]; simp
+          · cases h
+          · cases h
+      | ok bd =>
+        obtain ⟨b, d⟩ := bd
+        obtain ⟨Y, o, hvd, rfl, hall⟩ := hok b d rfl
+        simp only [Parsed.RP.bind]
+        cases b with
+        | false =>
+          simp only [Bool.not_false, if_true]
+          exact ⟨_, rfl, (fun d h => by cases h), (fun e' he => by cases he; simp), (fun he => by cases he)⟩
+        | true =>
+          simp only [Bool.not_true, Bool.false_eq_true, if_false]
+          obtain ⟨_, _, _, hm, _, _, _⟩ := vd_fields Y o hvd
+          obtain ⟨_, _, hval, _⟩ := month_day_spec Y o hvd.2.2.1 hvd.2.2.2
+          have hm1 : 1 ≤ monthOfYo Y o := by
+            unfold validYmd at hval; simp at hval; omega
+          have fin : ∀ (hq : optIs p.quarter (quarterOfMonth (monthOfYo Y o))),
+              IsoCtorSpec ∨ UsesCalendar p → DateAgrees p Y o := by
+            intro hq hiso
+            have hiso' : IsoCtorSpec ∨ ∀ y w wd, Parsed.dateArm p gy gi ≠ .iso y w wd := by
+              rcases hiso with h | h
+              · exact Or.inl h
+              · right
+                apply dateArm_not_iso
+                refine ⟨?_, h.2⟩
+                rcases resolve_year_ok _ _ _ _ hgy with ⟨_, h1, _, h3⟩ | ⟨Y', hg, _⟩
+                · rcases h.1 with hy | hy
+                  · exact absurd h1 hy
+                  · exact absurd h3 hy
+                · rw [hg]; simp
+            obtain ⟨⟨a1, a2, a3, a4⟩, ⟨a5, a6⟩, a7, a8, a9⟩ := hall rfl hiso'
+            exact ⟨a1, a2, hq, a3, a8, a9, a6, a7, a4, a5⟩
+          cases hq : p.quarter with
+          | none =>
+            simp only []
+            refine ⟨_, rfl, ?_, (fun e' he => by cases he), (fun he => by cases he)⟩
+            intro d hd; cases hd
+            exact ⟨Y, o, hvd, rfl, fin (by intro x hx; rw [hq] at hx; cases hx)⟩
+          | some q =>
+            simp only []
+            rw [hm]
+            simp only []
+            rw [quarter_eq _ hm1]
+            split
+            · exact ⟨_, rfl, (fun d _h => by cases _h), (fun e' he => by cases he; simp), (fun he => by cases he)⟩
+            · rename_i hqq
+              refine ⟨_, rfl, ?_, (fun e' he => by cases he), (fun he => by cases he)⟩
+              intro d hd; cases hd
+              refine ⟨Y, o, hvd, rfl, fin ?_⟩
+              intro x hx; rw [hq] at hx; cases hx
+              exact Decidable.not_not.mp hqq
+
+
+/-- a usable, coherent group resolves -/
+theorem resolve_year_total (y q r : Option Int) (hu : GroupUsable y q r) (hc : GroupCoherent y q r) :
+    ∃ g, Parsed.resolve_year y q r = .ok g := by
+  cases h : Parsed.resolve_year y q r with
+  | ok g => exact ⟨g, rfl⟩
+  | error e =>
+    rcases resolve_year_err _ _ _ _ h with ⟨_, h1⟩ | ⟨_, h1⟩
+    · exact absurd hu h1
+    · exact absurd hc h1
+
+/-- an unusable (century-only) group is reported as not enough -/
+theorem resolve_year_unusable (y q r : Option Int) (hu : ¬ GroupUsable y q r) :
+    Parsed.resolve_year y q r = .error .notEnough := by
+  unfold GroupUsable at hu
+  have hu' := Decidable.not_not.mp hu
+  obtain ⟨rfl, hq, rfl⟩ := hu'
+  cases q with
+  | none => exact absurd rfl hq
+  | some qv => rfl
+
+theorem date_not_enough_iff (p : Parsed) (hp : InType p)
+    (hc1 : GroupCoherent p.year p.year_div_100 p.year_mod_100)
+    (hc2 : GroupCoherent p.isoyear p.isoyear_div_100 p.isoyear_mod_100) :
+    Parsed.to_naive_date p = .ok (.error .notEnough) ↔ ¬ DateSufficient p := by
+  constructor
+  · intro h
+    obtain ⟨r, hr, _, _, hne⟩ := date_main p hp
+    rw [hr] at h
+    cases h
+    exact hne rfl
+  · intro hns
+    by_cases hu1 : GroupUsable p.year p.year_div_100 p.year_mod_100
+    · obtain ⟨gy, hgy⟩ := resolve_year_total _ _ _ hu1 hc1
+      by_cases hu2 : GroupUsable p.isoyear p.isoyear_div_100 p.isoyear_mod_100
+      · obtain ⟨gi, hgi⟩ := resolve_year_total _ _ _ hu2 hc2
+        unfold Parsed.to_naive_date
+        rw [hgy, hgi]
+        simp only []
+        have harm : Parsed.dateArm p gy gi = .none := by
+          have hYy : gy ≠ none → GroupHasYear p.year p.year_mod_100 := by
+            intro hg
+            rcases resolve_year_ok _ _ _ _ hgy with ⟨h, _⟩ | ⟨_, _, _, _, h⟩
+            · exact absurd h hg
+            · exact h
+          have hIy : gi ≠ none → GroupHasYear p.isoyear p.isoyear_mod_100 := by
+            intro hg
+            rcases resolve_year_ok _ _ _ _ hgi with ⟨h, _⟩ | ⟨_, _, _, _, h⟩
+            · exact absurd h hg
+            · exact h
+          have hno : ¬ ((gy ≠ none ∧ ((p.month ≠ none ∧ p.day ≠ none) ∨ p.ordinal ≠ none ∨
+              (p.week_from_sun ≠ none ∧ p.weekday ≠ none) ∨ (p.week_from_mon ≠ none ∧ p.weekday ≠ none))) ∨
+              (gi ≠ none ∧ p.isoweek ≠ none ∧ p.weekday ≠ none)) := by
+            intro h
+            apply hns
+            refine ⟨hu1, hu2, ?_⟩
+            rcases h with ⟨hg, hc⟩ | ⟨hg, hc⟩
+            · exact Or.inl ⟨hYy hg, hc⟩
+            · exact Or.inr ⟨hIy hg, hc⟩
+          rcases dateArm_cases p gy gi with ⟨_, _, _, e1, e2, e3, _⟩ | ⟨_, _, e1, e2, _⟩ |
+              ⟨_, _, _, e1, e2, e3, _⟩ | ⟨_, _, _, e1, e2, e3, _⟩ | ⟨_, _, _, e1, e2, e3, _⟩ | ⟨ha, _⟩
+          · exact absurd (Or.inl ⟨by simp [e1], Or.inl ⟨by simp [e2], by simp [e3]⟩⟩) hno
+          · exact absurd (Or.inl ⟨by simp [e1], Or.inr (Or.inl (by simp [e2]))⟩) hno
+          · exact absurd (Or.inl ⟨by simp [e1], Or.inr (Or.inr (Or.inl ⟨by simp [e2], by simp [e3]⟩))⟩) hno
+          · exact absurd (Or.inl ⟨by simp [e1], Or.inr (Or.inr (Or.inr ⟨by simp [e2], by simp [e3]⟩))⟩) hno
+          · exact absurd (Or.inr ⟨by simp [e1], by simp [e2], by simp [e3]⟩) hno
+          · exact ha
+        rw [harm]
+        rfl
+      · unfold Parsed.to_naive_date
+        rw [hgy, resolve_year_unusable _ _ _ hu2]
+    · unfold Parsed.to_naive_date
+      rw [resolve_year_unusable _ _ _ hu1]
+
+
 end Chrono.Proofs
